@@ -161,6 +161,7 @@ class Sym:
         r = s.__eq__(o)
         return r if r is NotImplemented else SBool(z3.Not(r.t))
     def _eq(a, b): return SBool(a.t == b.t)
+    def __format__(s, spec): return '<sym>'
 
 for _n in ('add', 'radd', 'sub', 'rsub', 'mul', 'rmul', 'truediv', 'rtruediv', 'floordiv', 'rfloordiv', 'mod', 'rmod', 'pow', 'rpow', 'lt', 'le', 'gt', 'ge'):
     setattr(Sym, f'__{_n}__', _guard(getattr(Sym, f'__{_n}__')))
@@ -344,7 +345,7 @@ def decide(cond):
         return v
     s = c.solver
     def feas(f):
-        s.push(); s.add(*c.pc, f)
+        s.push(); s.add(*c.pc, *c.side, f)
         r = timed_check(s); s.pop()
         if r == z3.unknown: raise PathAbort('unknown feasibility')
         return r == z3.sat
